@@ -107,6 +107,29 @@ pub fn thick_claims_al(a: Point, b: Point, w: u32, al: StrokeAlignment, q: Point
     let mut n = NProbe::<Gray8>::new(q, big);
     styled.draw(&mut n).unwrap();
     check!(n.writes == writes, "C01.pixels_eq_draw");
+    // the claims above are about the stroked line as it is DRAWN as well
+    check!(n.writes == writes, "C17.draw_eq_pixels");
+}
+
+/// Known finding KF-4: a very wide stroke on a short line leaves the w/2 + 2.5 corridor
+/// ((0,0)-(5,3), width 38: 21.78 px at (14,-17) against 21.5). Only the corridor clause, one listed line.
+#[cfg_attr(kani, kani::proof, kani::unwind(290))]
+pub fn c17_q_g_thick_very_wide_kf4() {
+    let (a, b, w) = (Point::new(0, 0), Point::new(5, 3), 38u32);
+    let q = point(7);
+    note!("line", (a, b)); note!("width", w); note!("q", q);
+    let styled = Line::new(a, b).into_styled(PrimitiveStyle::with_stroke(Gray8::new(1), w));
+    let mut writes = 0u32;
+    for Pixel(p, _) in styled.pixels() {
+        if p == q { writes += 1; }
+    }
+    check!(writes <= 1, "C17.no_duplicate");
+    reach!(writes == 1 && q.x == 14 && q.y == -17, "reach.kf4_pixel");
+    if writes > 0 {
+        let (dx, dy) = (5i64, 3i64);
+        let cross = q.x as i64 * dy - q.y as i64 * dx;
+        check_kf!(4 * cross * cross <= (w as i64 + 5) * (w as i64 + 5) * (dx * dx + dy * dy), "C17.corridor", "C17.corridor@KF-4", true);
+    }
 }
 
 macro_rules! c17_thick_g {
@@ -135,6 +158,9 @@ macro_rules! c17_thick_al_g {
 // leave the w/2 + 2.5 corridor)
 c17_thick_al_g!(c01_c02_c17_q_g_thick_aligned_a, 120, [((0, 0), (6, 0), 8, Inside), ((-2, 3), (1, -4), 9, Outside)]);
 c17_thick_al_g!(c01_c02_c17_q_g_thick_aligned_b, 120, [((0, 0), (5, 3), 10, Inside), ((3, 3), (-3, 0), 7, Outside), ((0, 0), (3, 1), 3, Inside)]);
+// axis-aligned lines running right-to-left / bottom-to-top and a single point (a rectangle fast path for
+// such lines must anchor at the lower end)
+c17_thick_g!(c01_c02_c17_q_g_thick_axis_reversed, 60, [((4, 1), (-3, 1), 3), ((2, 3), (2, -3), 2), ((1, 1), (1, 1), 4)]);
 // regime G: all octants, horizontal, vertical, diagonal, zero length x widths
 c17_thick_g!(c01_c02_c17_q_g_thick_a, 60, [((0, 0), (5, 2), 3), ((-3, 4), (2, -4), 2), ((2, 2), (2, 2), 3), ((-4, 0), (4, 0), 4), ((0, -3), (0, 3), 1)]);
 c17_thick_g!(c01_c02_c17_q_g_thick_b, 60, [((3, 3), (-3, -3), 3), ((4, -1), (-2, -5), 2), ((-1, -1), (1, 6), 5), ((0, 0), (6, 1), 0)]);
